@@ -53,8 +53,8 @@ func ZZ_C07_labeled_extract_expand_are_RFC9180() {
 		suite = Suite{KEM_XWING, KDF_HKDF_SHA256, AEAD_ChaCha20Poly1305}
 		suiteID = []byte{'H', 'P', 'K', 'E', 0x64, 0x7a, 0x00, 0x01, 0x00, 0x03}
 	}
-	label := make([]byte, zzPick("labellen", 0, 3))
-	data := make([]byte, zzPick("datalen", 0, 2))
+	label := make([]byte, zzPick("labellen", 0, 3, zzT(3, 9)))
+	data := make([]byte, zzPick("datalen", 0, 2, zzT(2, 33)))
 	prk := make([]byte, 32)
 	zzFill("label", label)
 	zzFill("data", data)
